@@ -2,9 +2,16 @@
 """tools/collect_seeds.py <prop> <n> [extra props...]: re-confirm one seeded change against the current /repo HEAD (scratch worktree)
 and store it as /verif/seeded/<prop>-<n>/ {patch.diff, demo.py, note.txt, meta.json}."""
 import json, os, re, shutil, subprocess, sys
-prop, n = sys.argv[1], sys.argv[2]
-extra = sys.argv[3:]
-src = f'/tmp/seed_{prop}/{n}'
+args = sys.argv[1:]
+src_root, as_n = '/tmp/seed_%s', None
+while '--src' in args:
+    i = args.index('--src'); src_root = args[i + 1]; del args[i:i + 2]
+while '--as' in args:
+    i = args.index('--as'); as_n = args[i + 1]; del args[i:i + 2]
+prop, n = args[0], args[1]
+extra = args[2:]
+src = (src_root % prop) + '/' + n
+n = as_n or n
 out = subprocess.run(['/verif/tools/try_seed.sh', prop, src, 'quick'] + extra, capture_output=True, text=True).stdout.strip()
 m = re.search(r'tests=\[(.*?)\] demo_clean=(\d+) demo_mut=(\d+) checks:(.*)$', out)
 dst = f'/verif/seeded/{prop}-{n}'
